@@ -156,13 +156,16 @@ func (in *instrumenter) rewriteList(list []ast.Stmt) []ast.Stmt {
 	out := make([]ast.Stmt, 0, len(list)*2)
 	for _, s := range list {
 		in.rewriteStmt(s)
-		owned := false
+		pos := s.Pos()
+		gate := false
+		if _, isLabeled := s.(*ast.LabeledStmt); !isLabeled && (in.every || (in.visibleOps && in.visible(s))) {
+			gate = true
+		}
 		if sel, ok := s.(*ast.SelectStmt); ok && (in.every || in.visibleOps) {
 			s = in.ownSelect(sel)
-			_, owned = s.(*ast.SwitchStmt) // verifChoose is a yield point itself
 		}
-		if _, isLabeled := s.(*ast.LabeledStmt); !isLabeled && !owned && (in.every || (in.visibleOps && in.visible(s))) {
-			out = append(out, in.gateStmt(s.Pos()))
+		if gate {
+			out = append(out, in.gateStmt(pos))
 		}
 		out = append(out, s)
 	}
@@ -170,21 +173,23 @@ func (in *instrumenter) rewriteList(list []ast.Stmt) []ast.Stmt {
 }
 
 // ownSelect hands the one nondeterministic choice a select statement makes —
-// which of several ready cases runs — to the scheduler.  A select with n >= 2
-// receive cases and no default becomes
+// which of several ready cases runs — to the scheduler.  A select whose cases
+// are all bare receives (`case <-ch:`, value discarded) and that has no default
+// becomes
 //
-//	switch verifChoose("file:line", n) {
-//	case k:  // case k has priority, then k+1, ... (cyclically); nobody ready: block on all
-//		select { <case k>; default: select { <case k+1>; default: ... select { <all cases> } } }
-//	default: // no scheduler installed
-//		<the original select>
+//	switch verifSelect("file:line", poll0, poll1, ...) {
+//	case k:  <body of case k>      // case k was ready (its receive has been done)
+//	default: <the original select> // nothing was ready (block), or no scheduler
 //	}
 //
-// Every behaviour of the rewritten statement is a behaviour of the original
-// (Go may pick any ready case) and for every set of ready cases each member can
-// be chosen.  Case bodies are shared between the copies (already instrumented).
-// Selects with a default clause, a send case or a single case are left alone
-// and counted in the summary (none in the pinned tree).
+// where poll_k is a non-blocking receive from case k's channel.  verifSelect
+// polls the cases in order: a poll that receives a *value* commits to that case
+// at once; channels that are merely closed consume nothing, and when two or
+// more of them are ready the scheduler chooses (a choice point) — with one or
+// none ready there is nothing to choose and no yield point is added.  Every
+// behaviour of the rewritten statement is a behaviour of the original; for
+// close-only signal channels (all the tree has) every ready case can be
+// selected.  Other selects are left alone and counted (selects_unowned).
 func (in *instrumenter) ownSelect(sel *ast.SelectStmt) ast.Stmt {
 	var comms []*ast.CommClause
 	for _, cl := range sel.Body.List {
@@ -193,7 +198,13 @@ func (in *instrumenter) ownSelect(sel *ast.SelectStmt) ast.Stmt {
 			in.selectsUnowned++
 			return sel
 		}
-		if _, isSend := c.Comm.(*ast.SendStmt); isSend {
+		// only bare receives whose value is discarded: `case <-ch:`
+		es, ok := c.Comm.(*ast.ExprStmt)
+		if !ok {
+			in.selectsUnowned++
+			return sel
+		}
+		if u, ok := es.X.(*ast.UnaryExpr); !ok || u.Op != token.ARROW {
 			in.selectsUnowned++
 			return sel
 		}
@@ -219,42 +230,39 @@ func (in *instrumenter) ownSelect(sel *ast.SelectStmt) ast.Stmt {
 	in.selectsOwned++
 	p := in.fset.Position(sel.Pos())
 	label := in.file + ":" + strconv.Itoa(p.Line)
-	full := func() *ast.SelectStmt {
-		list := make([]ast.Stmt, n)
-		for i, c := range comms {
-			list[i] = &ast.CommClause{Comm: c.Comm, Body: c.Body}
+	// one non-blocking poll per case: func() (ready, consumed bool) { select { case _, ok := <-ch: return true, ok; default: return false, false } }
+	boolT := func() *ast.Field { return &ast.Field{Type: ast.NewIdent("bool")} }
+	var polls []ast.Expr
+	for _, c := range comms {
+		ch := c.Comm.(*ast.ExprStmt).X.(*ast.UnaryExpr).X
+		poll := &ast.FuncLit{
+			Type: &ast.FuncType{Params: &ast.FieldList{}, Results: &ast.FieldList{List: []*ast.Field{boolT(), boolT()}}},
+			Body: &ast.BlockStmt{List: []ast.Stmt{&ast.SelectStmt{Body: &ast.BlockStmt{List: []ast.Stmt{
+				&ast.CommClause{
+					Comm: &ast.AssignStmt{Lhs: []ast.Expr{ast.NewIdent("_"), ast.NewIdent("ok")}, Tok: token.DEFINE,
+						Rhs: []ast.Expr{&ast.UnaryExpr{Op: token.ARROW, X: ch}}},
+					Body: []ast.Stmt{&ast.ReturnStmt{Results: []ast.Expr{ast.NewIdent("true"), ast.NewIdent("ok")}}},
+				},
+				&ast.CommClause{Comm: nil, Body: []ast.Stmt{&ast.ReturnStmt{Results: []ast.Expr{ast.NewIdent("false"), ast.NewIdent("false")}}}},
+			}}}}},
 		}
-		return &ast.SelectStmt{Body: &ast.BlockStmt{List: list}}
+		polls = append(polls, poll)
 	}
 	var cases []ast.Stmt
-	for k := 0; k < n; k++ {
-		inner := ast.Stmt(full())
-		for j := n - 1; j >= 0; j-- {
-			c := comms[(k+j)%n]
-			inner = &ast.SelectStmt{Body: &ast.BlockStmt{List: []ast.Stmt{
-				&ast.CommClause{Comm: c.Comm, Body: c.Body},
-				&ast.CommClause{Comm: nil, Body: []ast.Stmt{inner}},
-			}}}
-		}
+	for k, c := range comms {
 		cases = append(cases, &ast.CaseClause{
 			List: []ast.Expr{&ast.BasicLit{Kind: token.INT, Value: strconv.Itoa(k)}},
-			Body: []ast.Stmt{inner},
+			Body: c.Body,
 		})
 	}
 	cases = append(cases, &ast.CaseClause{Body: []ast.Stmt{sel}})
+	args := append([]ast.Expr{&ast.BasicLit{Kind: token.STRING, Value: strconv.Quote(label)}}, polls...)
 	return &ast.SwitchStmt{
-		Tag: &ast.CallExpr{
-			Fun: ast.NewIdent("verifChoose"),
-			Args: []ast.Expr{
-				&ast.BasicLit{Kind: token.STRING, Value: strconv.Quote(label)},
-				&ast.BasicLit{Kind: token.INT, Value: strconv.Itoa(n)},
-			},
-		},
+		Tag:  &ast.CallExpr{Fun: ast.NewIdent("verifSelect"), Args: args},
 		Body: &ast.BlockStmt{List: cases},
 	}
 }
 
-// rewriteStmt descends into nested statement lists and function literals.
 func (in *instrumenter) rewriteStmt(s ast.Stmt) {
 	clauses := func(body *ast.BlockStmt) {
 		// the body of a switch / select holds clauses, not statements: gates go
